@@ -2,6 +2,10 @@
    whole-identifier occurrences.  Statements only; every proof is `exact <lemma of ReplaceProofs / YamlProofs>`. *)
 From Coq Require Import List Ascii String Bool Arith ZArith.
 From PV Require Import Replace ReplaceProofs Yaml YamlProofs.
+From PV Require PyLib ReplaceEquiv.
+Notation la := PyLib.la.
+Notation sla := PyLib.sla.
+From PVG Require Gen_replace.
 Import ListNotations.
 
 (* ===================== (a) equation edits ===================== *)
@@ -15,6 +19,22 @@ Theorem C15_replace_full : forall isd term rep, term <> [] -> nodelim isd term =
   forall eq, replace isd term rep eq = Some (List.concat (map (fun w => if str_eqb w term then rep else w) (words isd eq))).
 Proof. exact replace_full. Qed.
 Print Assumptions C15_replace_full.
+
+(* E2: the same statement about the Gallina text that harness/py2v.py regenerates from the CURRENT source of
+   pyrates.backend.parser.replace on every run (coq/gen/Gen_replace.v; Python strings, find/slicing with Python's rules,
+   the while loop on fuel).  ReplaceEquiv.gen_replace_equiv (owner: C18/auto builder) shows that text equal to the hand
+   model on every input; transported along it, the word-wise specification is a theorem about what the code says now:
+   for all Python strings eq, term, rep with term a non-empty identifier, replace(eq, term, rep) returns the equation
+   with exactly the words that are the term substituted. *)
+Theorem C15_replace_full_generated : forall eq term rep : string, la term <> [] -> nodelim is_delim (la term) = true ->
+  Gen_replace.replace eq term rep false false = Some (sla (replace_words is_delim (la term) (la rep) (la eq))).
+Proof.
+  intros eq term rep Hne Hnd.
+  rewrite <- (string_of_list_ascii_of_string eq), <- (string_of_list_ascii_of_string term), <- (string_of_list_ascii_of_string rep) at 1.
+  change string_of_list_ascii with sla. change list_ascii_of_string with la.
+  rewrite ReplaceEquiv.gen_replace_equiv. fold (replace is_delim (la term) (la rep) (la eq)). now rewrite (replace_full is_delim (la term) (la rep) Hne Hnd).
+Qed.
+Print Assumptions C15_replace_full_generated.
 
 (* the intermediate refinement steps: accumulator form = suffix form = one left-to-right scan *)
 Theorem C15_loop_is_scan : forall isd term rep, term <> [] -> nodelim isd term = true ->
@@ -83,21 +103,13 @@ Proof. exact dump_pure. Qed.
 Print Assumptions C15_dump_pure.
 
 (* each guard is needed (computed witnesses; the same circuits fail on the real code, corpus/C15) *)
-Theorem C15_load_dump_refuted_rename : exists c, dicts_wf c = true /\ const_overrides c = true /\ variants_le2 c = true /\ ~ load_dump_statement c.
+Theorem C15_load_dump_refuted_rename : exists c, no_rename c = false /\ ~ load_dump_statement c.
 Proof. exact load_dump_refuted_rename. Qed.
 Print Assumptions C15_load_dump_refuted_rename.
-Theorem C15_load_dump_refuted_three : exists c, dicts_wf c = true /\ const_overrides c = true /\ variants_le2 c = false /\ ~ load_dump_statement c.
-Proof. exact load_dump_refuted_three. Qed.
-Print Assumptions C15_load_dump_refuted_three.
-(* D33 as a theorem about add_to_dict: with one dict stored under `name`, two further different dicts of that name
-   both get the key <name>_num1 and the second overwrites the first *)
-Theorem C15_num1_handed_out_twice : forall name d1 d2 d3 st, assoc name st = Some d1 ->
-  entry_eqs d1 d2 || entry_eqb d1 d2 = false -> entry_eqs d1 d3 || entry_eqb d1 d3 = false ->
-  let (k2, st2) := add_to_dict name d2 st in
-  let (k3, st3) := add_to_dict name d3 st2 in
-  k2 = k3 /\ (str_eqb name (name ++ num1) = false -> assoc k2 st3 = Some d3).
-Proof. exact add_to_dict_num1_twice. Qed.
-Print Assumptions C15_num1_handed_out_twice.
+Theorem C15_shared_operator_variants_roundtrip :
+  roundtrip_ok w_rename = true /\ roundtrip_ok w_three = true.
+Proof. exact load_dump_shared_operator_variants. Qed.
+Print Assumptions C15_shared_operator_variants_roundtrip.
 
 (* non-vacuity: a two-level circuit with a shared operator, the same override on every node, an edge template with
    an override and a top-level edge satisfies WFy, round-trips, and has 4 nodes; the replace theorem's hypotheses
